@@ -133,10 +133,39 @@ Fixpoint annot_list (l : list stm) (c : cnt) : option (list xstm * cnt) :=
       end
   end.
 
+(* ifs / loops / try blocks that contain nothing once reads, writes and
+   unmapped code are erased (progress or statistics logging, a local
+   dict built in a loop ...) are dropped: they cannot matter *)
+Fixpoint prune (s : stm) : list stm :=
+  let go := fix go (l : list stm) : list stm :=
+              match l with [] => [] | x :: r => prune x ++ go r end in
+  match s with
+  | SIf a b =>
+      match go a, go b with
+      | [], [] => []
+      | a', b' => [SIf a' b']
+      end
+  | SLoop b =>
+      match go b with
+      | [] => []
+      | b' => [SLoop b']
+      end
+  | STry b hs o f =>
+      let hs' := map (fun h => (fst h, go (snd h))) hs in
+      match go b, go o, go f, flat_map snd hs' with
+      | [], [], [], [] => []
+      | b', o', f', _ => [STry b' hs' o' f']
+      end
+  | other => [other]
+  end.
+
+Fixpoint prune_list (l : list stm) : list stm :=
+  match l with [] => [] | x :: r => prune x ++ prune_list r end.
+
 (* the function's control skeleton: calls, raises, structure, exit kinds;
    None when tree and flat list disagree on the number of exits *)
 Definition xshape (tree : list stm) (flat : list ev) : option (list xstm) :=
-  match annot_list (calls_only_list tree)
+  match annot_list (prune_list (calls_only_list tree))
                    (mkCnt (exit_kinds flat) 0 0 0) with
   | Some (x, c) => match c_kinds c with [] => Some x | _ => None end
   | None => None
@@ -355,19 +384,17 @@ Definition x_run_search : list xstm :=
     XEv (Call "apply_global");            (* run_file: apply_global ... *)
     XEv (Call "enumerate_lines");         (* lines_loop 0 (skipn pos ..) *)
     XLoop 1                               (* lines_loop: l :: r, ln + 1 *)
-      [ XIf 1 [] [];                      (*   progress logging *)
-        XEv (Call "decode_line");         (*   oracle tables of the line *)
+      [ XEv (Call "decode_line");         (*   oracle tables of the line *)
         XLoop 2                           (*   slots_step: s :: r *)
-          [ XIf 2                         (*     slot_step: sl_run s = false *)
+          [ XIf 1                         (*     slot_step: sl_run s = false *)
               [ XEv (Call "apply_single");
-                XIf 3 [XContinue] [] ]    (*       valid = false => (s, []) *)
+                XIf 2 [XContinue] [] ]    (*       valid = false => (s, []) *)
               [];                         (*       else runnable := allp *)
-            XIf 4                         (*     step (sl_def s) .. ln l *)
+            XIf 3                         (*     step (sl_def s) .. ln l *)
               [ XEv (Call "sequence_search") ]
               [ XEv (Call "simple_search") ] ] ];
     XEv (Call "process_sequences");       (* post (slot_states sls) ln *)
-    XIf 5 [ XLoop 3 [ XIf 6 [ XLoop 4 [] ] [] ] ] [];   (* stats logging *)
-    XRet 0 ].
+    XRet 0 ].                             (* (logging blocks are pruned) *)
 
 (* SearchTask.execute  <->  execute *)
 Definition x_execute : list xstm :=
@@ -396,10 +423,8 @@ Definition x_put_result : list xstm :=
     XLoop 0                                       (* queue path: C02 *)
       [ XTry [ XIf 1 [XEv (Call "q_put")] [XEv (Call "q_put_block")];
                XBreak ]
-             [ ("queue.Full", [ XIf 2 [] []; XEv (Call "sleep");
-                                XIf 3 [] [] ]) ]
-             [] [] ];
-    XIf 4 [] [] ].
+             [ ("queue.Full", [ XEv (Call "sleep") ]) ]
+             [] [] ] ].
 
 (* SearchConstraintsManager.apply_global  <->  apply_global(_loop) *)
 Definition x_apply_global : list xstm :=
